@@ -94,6 +94,60 @@ theorem C10_cause (s : St) (op : Op) (hop : op ≠ .close) :
     · exact cleanUp_caused t s.maxSize s.buf
   | close => exact absurd rfl hop
 
+theorem mem_evicted_evictable {now M : Int} {b : Buf} {p : Nat × Ev} (h : p ∈ (cleanUp now M b).1) :
+    ∃ n, n ≤ b.length ∧ evictable now M n p.2 = true := by
+  induction b with
+  | nil => simp [cleanUp] at h
+  | cons q b ih =>
+    obtain ⟨k, e⟩ := q
+    unfold cleanUp at h
+    split at h
+    · rename_i hev
+      simp only [List.mem_cons] at h
+      rcases h with rfl | h
+      · exact ⟨b.length + 1, by simp, hev⟩
+      · obtain ⟨n, hn, he⟩ := ih h
+        exact ⟨n, by simp; omega, he⟩
+    · simp at h
+
+/-- **An event is not delivered by the push that creates it, unless for cause.** A record of a non-terminating
+type that opens a new event — no event with its sequence number is buffered — while the buffer stays within
+maxInFlight, and whose push's clean-up reads the clock no later than timeout after its Put did (a call lasts far less
+than any sensible timeout; with the two readings equal, any timeout ≥ 0 qualifies), is still buffered when the push
+returns: nothing the call delivers is that event. The deadline of a new event is computed from a clock reading of
+*this* push — not from one cached by an earlier call, however long ago that was. -/
+theorem C10_new_event_survives_its_push (s : St) (m : Msg) (tp tc : Int)
+    (hE : (m.typ == EOE) = false) (hc : completes m.typ = false) (hk : hasKey m.seq s.buf = false)
+    (hsize : ((put s m tp).buf.length : Int) ≤ s.maxSize) (htime : tc ≤ tp + s.timeout) :
+    (m.seq, ({ expire := tp + s.timeout, msgs := [m], complete := false } : Ev)) ∉ evictedBy s (.push m tp tc) ∧
+    (m.seq, ({ expire := tp + s.timeout, msgs := [m], complete := false } : Ev)) ∈ (step s (.push m tp tc)).1.buf := by
+  have hput : (m.seq, ({ expire := tp + s.timeout, msgs := [m], complete := false } : Ev)) ∈ (put s m tp).buf := by
+    simp only [put, hE, hk, Bool.false_eq_true, if_false, hc]
+    exact mem_insertEnd.mpr (Or.inl rfl)
+  have hnot : (m.seq, ({ expire := tp + s.timeout, msgs := [m], complete := false } : Ev)) ∉
+      (cleanUp tc (put s m tp).maxSize (put s m tp).buf).1 := by
+    intro hmem
+    obtain ⟨n, hn, he⟩ := mem_evicted_evictable hmem
+    have hms : (put s m tp).maxSize = s.maxSize := by
+      simp only [put]; split <;> (try split) <;> rfl
+    simp only [evictable, Bool.false_or, Bool.or_eq_true, decide_eq_true_eq, hms] at he
+    rcases he with he | he
+    · have : (n : Int) ≤ ((put s m tp).buf.length : Int) := by exact_mod_cast hn
+      omega
+    · omega
+  refine ⟨by simpa [evictedBy] using hnot, ?_⟩
+  have happ := cleanUp_append tc (put s m tp).maxSize (put s m tp).buf
+  have : (m.seq, ({ expire := tp + s.timeout, msgs := [m], complete := false } : Ev)) ∈
+      (cleanUp tc (put s m tp).maxSize (put s m tp).buf).1 ++ (cleanUp tc (put s m tp).maxSize (put s m tp).buf).2 := by
+    rw [happ]; exact hput
+  rcases List.mem_append.mp this with h | h
+  · exact absurd h hnot
+  · simpa [step, evictStep] using h
+
+/-- non-vacuity: a first record pushed a long time after the previous call (the clock at 10 000, timeout 100) -/
+example : (run (init 5 100) [.push ⟨1, 7, 1300⟩ 0 0, .maintain 500, .push ⟨2, 9, 1300⟩ 10000 10000]).2 =
+    [[], [.group [⟨1, 7, 1300⟩]], []] := by decide
+
 /-- Completion only for cause: after `Put`, an event is complete only if it already was, or
 the pushed record is a terminating one that joined it, or the pushed record is the EOE of
 that (buffered) sequence. -/
